@@ -194,8 +194,9 @@ package json
 //@   ensures panics <==> !beq(g.bytes, "{") && !beq(g.bytes, "[") && litKind(g.bytes) == 0
 
 //@ func (Type).String()
-//@   props C07
+//@   props C07 C16
 //@   nopanic
+//@   ensures result == jsonTypeStr(t)
 //@ func (Type).IsLiteralType()
 //@   props C01
 //@   nopanic
